@@ -183,9 +183,16 @@ func (w *world) genRows(c *simChan, st *mstate, n int, mode AppendMode, compat b
 			row.ID = 0
 		}
 		// idempotency key
-		keyW := []int{3 + 2*w.c.Collide, 4, boolInt(len(c.graveKeys) > 0)}
+		// recently stored keys (they sit in the filter's overflow layer once it is saturated)
+		var recent [][2]string
+		for j := len(st.rows) - 1; j >= 0 && len(recent) < 8; j-- {
+			if st.rows[j].From != "" && st.rows[j].CMN != "" {
+				recent = append(recent, [2]string{st.rows[j].From, st.rows[j].CMN})
+			}
+		}
+		keyW := []int{3 + 2*w.c.Collide, 4, boolInt(len(c.graveKeys) > 0), boolInt(len(recent) > 0) * w.c.Collide}
 		if w.bulk {
-			keyW = []int{0, 1, 0} // filter saturation needs many distinct stored keys
+			keyW = []int{0, 1, 0, 0} // filter saturation needs many distinct stored keys
 		}
 		switch tp.Weighted(keyW) {
 		case 0:
@@ -193,8 +200,11 @@ func (w *world) genRows(c *simChan, st *mstate, n int, mode AppendMode, compat b
 		case 1:
 			c.uniq++
 			row.From, row.CMN = w.alpha(fromAlphabet[1:]), fmt.Sprintf("q%d-%d", c.idx, c.uniq)
-		default:
+		case 2:
 			k := c.graveKeys[tp.Intn(len(c.graveKeys))]
+			row.From, row.CMN = k[0], k[1]
+		default:
+			k := recent[tp.Intn(len(recent))]
 			row.From, row.CMN = k[0], k[1]
 		}
 		if w.avoidIDs[row.ID] {
